@@ -315,9 +315,21 @@ def rnRank : RnPhase → Nat
   | .final => 1
   | _ => 0
 
+def txRank : TxState → Nat
+  | .open => 1
+  | .dropped => 0
+
+def optRank {α : Type} : Option α → Nat
+  | some _ => 1
+  | none => 0
+
+def carryRank : Bytes → Nat
+  | [] => 0
+  | _ :: _ => 4
+
 def State.weight (s : State σ ρ) : Nat :=
-  8 * s.inbuf.length + (if s.carry = [] then 0 else 4) + 3 * s.outq.length + 2 * s.chan.length
-    + (if s.cur.isSome then 1 else 0) + rdRank2 s.reader + (if s.tx = .open then 1 else 0) + rnRank s.rend
+  8 * s.inbuf.length + carryRank s.carry + 3 * s.outq.length + 2 * s.chan.length
+    + optRank s.cur + rdRank2 s.reader + txRank s.tx + rnRank s.rend
 
 def State.measure (s : State σ ρ) : Nat × Nat := (rdRank1 s.reader, s.weight)
 
